@@ -651,6 +651,99 @@ func typeTableGrounds(pk *packages.Package) []Ground {
 			out = append(out, Ground{Name: name + "/depIdxs[every type reference points at its own type]", OK: okDeps, Detail: det,
 				Text: fmt.Sprintf("%s_depIdxs resolves the %d field, method-input and method-output type references of the file, in declaration order, to the goTypes entries of the types they name", base, len(want))})
 		}
+		// legacy Descriptor() / EnumDescriptor(): the index path leads from the file to the declaration (outermost first)
+		{
+			paths := map[string]string{}
+			var walkP func(goPrefix, path string, m *descriptorpb.DescriptorProto)
+			walkP = func(goPrefix, path string, m *descriptorpb.DescriptorProto) {
+				gn := goPrefix + goCamel(m.GetName())
+				paths[gn] = path
+				for i, e := range m.EnumType {
+					paths[gn+"_"+goCamel(e.GetName())] = path + ", " + strconv.Itoa(i)
+				}
+				for i, n := range m.NestedType {
+					walkP(gn+"_", path+", "+strconv.Itoa(i), n)
+				}
+			}
+			for i, e := range fd.EnumType {
+				paths[goCamel(e.GetName())] = strconv.Itoa(i)
+			}
+			for i, m := range fd.MessageType {
+				walkP("", strconv.Itoa(i), m)
+			}
+			for _, f := range pk.Syntax {
+				for _, d := range f.Decls {
+					fdl, ok := d.(*ast.FuncDecl)
+					if !ok || fdl.Recv == nil || fdl.Body == nil || (fdl.Name.Name != "Descriptor" && fdl.Name.Name != "EnumDescriptor") || len(fdl.Body.List) != 1 {
+						continue
+					}
+					recv := strings.TrimPrefix(types.ExprString(fdl.Recv.List[0].Type), "*")
+					want, known := paths[recv]
+					rs, isRet := fdl.Body.List[0].(*ast.ReturnStmt)
+					if !known || !isRet || len(rs.Results) != 2 {
+						continue
+					}
+					if !strings.Contains(types.ExprString(rs.Results[0]), base+"_rawDescGZIP") {
+						continue // a declaration of another file of the package
+					}
+					cl, isLit := rs.Results[1].(*ast.CompositeLit)
+					got := "?"
+					if isLit {
+						var parts []string
+						for _, e := range cl.Elts {
+							parts = append(parts, types.ExprString(e))
+						}
+						got = strings.Join(parts, ", ")
+					}
+					out = append(out, Ground{Name: fmt.Sprintf("%s/%s.%s/descriptor-path", name, recv, fdl.Name.Name), OK: got == want,
+						Text: fmt.Sprintf("%s.%s() returns the declaration's index path []int{%s} (outermost first)", recv, fdl.Name.Name, want), Detail: "[]int{" + got + "}"})
+				}
+			}
+		}
+		// file init: every imported file that lives in the same Go package is initialised first (same Go import path — not
+		// same proto package — is what makes its init function local)
+		{
+			same := map[string]bool{}
+			for _, other := range fds {
+				if other != fd && other.GetOptions().GetGoPackage() == fd.GetOptions().GetGoPackage() {
+					for _, dep := range fd.Dependency {
+						if dep == other.GetName() {
+							if ob := rawDescBase[pk.PkgPath+"\x00"+other.GetName()]; ob != "" {
+								same[ob+"_init"] = true
+							}
+						}
+					}
+				}
+			}
+			called := map[string]bool{}
+			for _, f := range pk.Syntax {
+				for _, d := range f.Decls {
+					if fdl, ok := d.(*ast.FuncDecl); ok && fdl.Recv == nil && fdl.Name.Name == base+"_init" && fdl.Body != nil {
+						ast.Inspect(fdl.Body, func(n ast.Node) bool {
+							if ce, ok := n.(*ast.CallExpr); ok {
+								if id, ok := ce.Fun.(*ast.Ident); ok && strings.HasPrefix(id.Name, "file_") && strings.HasSuffix(id.Name, "_init") {
+									called[id.Name] = true
+								}
+							}
+							return true
+						})
+					}
+				}
+			}
+			okInit, det := true, ""
+			for k := range same {
+				if !called[k] {
+					okInit, det = false, "does not call "+k+"()"
+				}
+			}
+			for k := range called {
+				if !same[k] {
+					okInit, det = false, "calls "+k+"(), which is not an imported file of the same Go package"
+				}
+			}
+			out = append(out, Ground{Name: name + "/init[initialises exactly the imported files of the same Go package]", OK: okInit, Detail: det,
+				Text: fmt.Sprintf("%s_init() calls the init function of each of the %d imported files that are generated into the same Go package, and of no other", base, len(same))})
+		}
 		// enumTypes index used by every enum type's Descriptor() and Type()
 		eidx := map[string]int{}
 		for i, en := range enums {
